@@ -572,6 +572,34 @@ def fixed_shard(spec):
                     st.nontrivial.add(core.h16("uninit%s%s" % (with_rules, call)))
                 finally:
                     d.close()
+        # ... and after such a first call (most of them fail: there is no expression yet) a valid expression must give exactly what it gives
+        # without that call -- under preferences that the failing call might touch on its way (highlighting Off, a navigation mode, an engine)
+        probe = PROBE.replace("<mi>z</mi>", "<mi id='pz'>z</mi>")
+        tail = [("set_mathml", probe), ("get_spoken_text",), ("get_braille", ""), ("get_braille", "pz"), ("get_overview_text",), ("do_navigate_command", "ZoomIn"),
+                ("get_navigation_braille",), ("get_braille_position",), ("get_preference", "BrailleNavHighlight"), ("get_preference", "NavMode"), ("get_preference", "TTS")]
+        for prefs in ({"TTS": "None", "BrailleNavHighlight": "Off", "BrailleCode": "Nemeth"}, {"TTS": "SSML", "BrailleNavHighlight": "FirstChar", "BrailleCode": "UEB", "NavMode": "Simple"}):
+            pre = [("set_rules_dir", core.RULES)] + [("set_preference", k, v) for k, v in prefs.items()]
+            ref = None
+            for call in [None] + [c for c in ALL_CALLS if c[0] not in ("set_rules_dir", "set_preference", "set_mathml")]:
+                d = core.Driver("native", timeout=60)
+                try:
+                    res = d.batch(pre + ([call] if call else []) + tail)
+                except (core.DriverDied, core.DriverTimeout):
+                    st.inconclusive += 1
+                    continue
+                finally:
+                    d.close()
+                got = [result_key(r) for r in res[-len(tail):]]
+                st.evaluations += 1
+                if call is None:
+                    ref = got
+                    continue
+                st.nontrivial.add(core.h16("uninit-recovery%s%s" % (sorted(prefs.items()), call)))
+                if ref is not None and got != ref:
+                    i = next(k for k in range(len(tail)) if got[k] != ref[k])
+                    st.violations.append(core.violation("not-recovered", "not-recovered | after %s as first call | %s" % (call[0], tail[i][0]),
+                                                        {"fixed": "uninit", "with_rules": True, "ops": [list(x) for x in pre[1:] + [call] + tail]},
+                                                        "after %s (no expression set yet) %s gives %r, without that call %r (preferences %s)" % (call, tail[i], got[i], ref[i], prefs)))
     elif which == "keys":
         # all key codes 0..255 x 16 modifier sets, on a table expression (keys are meaningful there)
         expr = "<math><mrow><mo>(</mo><mtable><mtr><mtd><mn>1</mn></mtd><mtd><mi>x</mi></mtd></mtr><mtr><mtd><mfrac><mn>1</mn><mn>2</mn></mfrac></mtd><mtd><msup><mi>y</mi><mn>2</mn></msup></mtd></mtr></mtable><mo>)</mo></mrow></math>"
